@@ -98,10 +98,9 @@ def _compare_sig(exp, got, what_prefix=''):
     ve = [_cmpval(T, tt, v) for tt, v in exp]
     vg = [_cmpval(T, tt, v) for tt, v in got]
     if ve == vg:
-        for i, ((te, _), (tg, _)) in enumerate(zip(exp, got)):
-            if te is not tg:
-                return (what_prefix + 'retyped',
-                        {'index': i, 'value': _clip(ve[i], 60), 'expected_type': str(te), 'observed_type': str(tg)})
+        # token TYPES are not part of the property statements (C06/C08 speak of the sequence of tokens: nothing
+        # dropped, added, reordered, fused or split, values byte-identical); e.g. `WHERE(` lexes WHERE as a Name and
+        # a line break inserted before `(` makes it a Keyword.  That is not reported.
         return None
     i = 0
     while i < len(ve) and i < len(vg) and ve[i] == vg[i]:
